@@ -353,6 +353,7 @@ async fn run_table(ti: usize, t: &Table, paths: &[String], recheck: bool, want_s
     };
     let mut classes: BTreeSet<String> = BTreeSet::new();
     let mut nt_classes: BTreeSet<String> = BTreeSet::new();
+    let mut best_score = 0usize;
     for (ri, req) in reqs.iter().enumerate() {
         let exp = refr::route(t, req);
         let got = real::call(&app, req).await;
@@ -366,12 +367,19 @@ async fn run_table(ti: usize, t: &Table, paths: &[String], recheck: bool, want_s
         if nt {
             res.nontrivial_evals += 1;
             nt_classes.insert(class.clone());
-            if want_sample && res.sample.is_none() && exp.nparams >= 1 && req.path.contains('%') {
+        }
+        if want_sample {
+            // keep the most telling case of this table: non-trivial, many parameters, escapes
+            let score = (nt as usize) * 100 + exp.nparams * 10 + req.path.contains('%') as usize * 5
+                + matches!(got, Outcome::Handler(_)) as usize;
+            if score > best_score || res.sample.is_none() {
+                best_score = score;
                 res.sample = Some(json!({
                     "table": t.show(),
                     "request": req.show(),
                     "observed": got,
-                    "expected_chain": exp.chain,
+                    "reference_chain": exp.chain,
+                    "nontrivial": nt,
                 }));
             }
         }
@@ -508,10 +516,14 @@ fn main() {
     let fam_counts: Mutex<BTreeMap<usize, (u64, u64)>> = Mutex::new(BTreeMap::new());
     let capped = std::sync::atomic::AtomicBool::new(false);
     let threads = mc_core::cli::threads();
-    // one written-out sample per family: from the first table of each family
+    // written-out samples: first, middle and last table of every family
     let sample_tables: BTreeSet<usize> = {
-        let mut seen_f = BTreeSet::new();
-        tables.iter().enumerate().filter(|(_, (fi, _))| seen_f.insert(*fi)).map(|(i, _)| i).collect()
+        let mut ranges: BTreeMap<usize, (usize, usize)> = BTreeMap::new();
+        for (i, (fi, _)) in tables.iter().enumerate() {
+            let e = ranges.entry(*fi).or_insert((i, i));
+            e.1 = i;
+        }
+        ranges.values().flat_map(|&(a, b)| [a, (a + b) / 2, b]).collect()
     };
 
     std::thread::scope(|sc| {
